@@ -512,6 +512,12 @@ func genResult(w *bufio.Writer, r *rng, id, size int) {
 			if r.chance(1, 2) {
 				rets = append(rets, reflect.Zero(errType))
 				desc = append(desc, "E:0")
+			} else if r.chance(1, 4) {
+				// a non-nil error interface holding a nil pointer: still an error (provenance id 1)
+				v := reflect.New(errType).Elem()
+				v.Set(reflect.ValueOf((*E0)(nil)))
+				rets = append(rets, v)
+				desc = append(desc, "E:1")
 			} else {
 				v := reflect.New(errType).Elem()
 				v.Set(reflect.ValueOf(&E0{ID: 10 + i}))
@@ -555,7 +561,12 @@ func genResult(w *bufio.Writer, r *rng, id, size int) {
 		ln = res.Len()
 		e = res.Err()
 		for i := 0; i < ln; i++ {
-			os = append(os, fmt.Sprint(vidOf(reflect.ValueOf(res.Out(i)))))
+			o := res.Out(i)
+			if p, ok := o.(*E0); ok && p == nil && i < len(desc) && desc[i] == "E:1" {
+				os = append(os, "1") // the typed nil pointer handed back as an ordinary output
+			} else {
+				os = append(os, fmt.Sprint(vidOf(reflect.ValueOf(o))))
+			}
 		}
 	})
 	if p {
@@ -571,6 +582,8 @@ func genResult(w *bufio.Writer, r *rng, id, size int) {
 			es = "unsat"
 		case errors.As(e, &e0) && e0 != nil:
 			es = fmt.Sprint(e0.ID)
+		case errors.As(e, &e0) && e0 == nil:
+			es = "1" // the typed nil pointer
 		default:
 			es = "other"
 		}
